@@ -1336,6 +1336,14 @@ def c12(tier):
             t["cls"] = "faults-L2"
             tasks.append(t)
     tasks += cyclic_tasks(["C12"])
+    if tier == "quick":
+        # node kill at the L2 points of its job phase (inside the critical section of its results file)
+        for t in rep_tasks(["C12"], (0, 1), graphs=["pair", "chain2"], params=params[:1]):
+            t["fault"] = dict(plan="c12", refuse=False)
+            t["scen"]["level"] = 2
+            t["id"] += "-L2"
+            t["cls"] = "faults-L2"
+            tasks.append(t)
     # a user-run try-submit-jobs (at any point) racing with a node that is lost
     ur = user_round_tasks(["C12"], (1, 1), ["single", "chain2"] if tier == "quick" else ["single", "pair", "chain2", "indep3"],
                           params=[("sz1-mxN", dict(size=1, max_nodes=None))])
